@@ -177,7 +177,7 @@ PROPS['C11'] = {
 PROPS['C14'] = {
     'level': 'model_checking',
     'technique': 'invariant (descriptor unchanged, status final, error code exact) evaluated on every transition of the C05 explicit-state exploration of the real scheduler + bounded-exhaustive per-suite sweep + integer-range sweep of imb_get_strerror',
-    'level_text': 'The status / error-code / descriptor invariants are evaluated after every call of the complete reachable state space of the real scheduler on the 4-slot ring (job and burst API, immediate / parked / chained / rejected jobs, incl. the full-queue paths) - the same exploration as C05, reported under C14 - and on every job of a per-suite sweep (every algorithm row, direction and variant, 1..5 jobs in flight with an invalid job at every position). imb_get_strerror is called on [-70000, 70000] plus limits (quick) or on all 2^32 int values (thorough) and must return a non-NULL terminated string; every IMB_ERR_* code must have its own description.',
+    'level_text': 'The status / error-code / descriptor invariants are evaluated after every call of the complete reachable state space of the real scheduler on the 4-slot ring (job and burst API, immediate / parked / chained / rejected jobs, incl. the full-queue paths; every checked call is entered with a NON-zero error code left by a real failing call, imb_set_session(mgr, NULL), so a success path that does not reset it is seen) - the same exploration as C05, reported under C14 - and on every job of a per-suite sweep (every algorithm row, direction and variant, 1..5 jobs in flight with an invalid job at every position). imb_get_strerror is called on [-70000, 70000] plus limits (quick) or on all 2^32 int values (thorough) and must return a non-NULL terminated string; every IMB_ERR_* code must have its own description.',
     'level_note': 'Message-length fields and u.SNOW_V_AEAD.reserved are excluded (documented rewriting / scratch). The C04 driver additionally compares descriptors on every job of its schedules and reports under C14.',
     'drivers': [
         {'name': 'c14', 'src': ['props/c14.c'] + ALG, 'cfgs': ['std'], 'args': ''},
